@@ -331,11 +331,65 @@ fn scenario_bmca(bound: usize, tally: &'static StdMutex<Tally>) {
     });
 }
 
+/// A grandmaster (own clockClass 248) has just qualified a better foreign master: the BMCA run
+/// that makes it slave races with a run-time change of the local clock quality.  Whatever the
+/// interleaving, once both are done parentDS is the foreign master's, in full.
+fn scenario_takeover(bound: usize, tally: &'static StdMutex<Tally>) {
+    let mut b = loom::model::Builder::new();
+    b.preemption_bound = Some(bound);
+    b.check(move || {
+      spawn_big(move || {
+        let inst = instance();
+        let (mut a, _) = add_port(inst).end_bmca();
+        let mut better = Peer::gm(7, 1);
+        better.gm_identity = [0x7b; 8];
+        better.class = 50;
+        better.priority2 = 44;
+        for _ in 0..2 {
+            let f = better.announce();
+            for _ in a.handle_general_receive(&f) {}
+        }
+        let want = view_of_peer(&better);
+        let tb = spawn_big(move || {
+            let mut ab = a.start_bmca();
+            inst.bmca(&mut [&mut ab]);
+            let (a, _) = ab.end_bmca();
+            tally.lock().unwrap().outcomes.insert(format!("after bmca: steering {}", a.is_steering()));
+        });
+        let tq = spawn_big(move || {
+            inst.set_clock_quality(ClockQuality { clock_class: 187, ..Default::default() });
+        });
+        let tobs = spawn_big(move || {
+            // any snapshot is either the instance's own view (class 248 or 187) or the foreign one
+            let p = view_parent(inst);
+            let own_gm = inst.default_ds().clock_identity.0;
+            let mut t = tally.lock().unwrap();
+            let foreign = (want.0, want.1, want.2, want.3) == p;
+            let own = p.0 == own_gm && (p.1 == 248 || p.1 == 187);
+            if !foreign && !own {
+                t.violations.insert(format!("parent-ds-snapshot-mixes-two-updates(takeover): {:?}", p));
+            }
+            t.outcomes.insert(format!("observer(takeover) gm {:#x} class {}", p.0[0], p.1));
+        });
+        tb.join().unwrap();
+        tq.join().unwrap();
+        tobs.join().unwrap();
+        let p = view_parent(inst);
+        let mut t = tally.lock().unwrap();
+        if (want.0, want.1, want.2, want.3) != p {
+            t.violations.insert(format!("parent-ds-mixes-two-updates(takeover): final {:?}, the foreign master announced {:?}", p, (want.0, want.1, want.2, want.3)));
+        }
+        t.outcomes.insert(format!("final(takeover) gm {:#x} class {}", p.0[0], p.1));
+        t.iterations += 1;
+      }).join().unwrap();
+    });
+}
+
 fn main() {
     let bound: usize = std::env::args().nth(1).and_then(|s| s.parse().ok()).unwrap_or(2);
     let only: Option<String> = std::env::args().nth(2);
     let mut out = vec![];
-    for (name, f) in [("updates", scenario_updates as fn(usize, &'static StdMutex<Tally>)), ("bmca", scenario_bmca)] {
+    for (name, f) in [("updates", scenario_updates as fn(usize, &'static StdMutex<Tally>)), ("bmca", scenario_bmca), ("takeover", scenario_takeover)] {
         if only.as_deref().map(|o| o != name).unwrap_or(false) {
             continue;
         }
